@@ -272,20 +272,62 @@ func inlineSimple(P *Program, v ssa.Value) (ssa.Value, map[ssa.Value]ssa.Value, 
 		return nil, nil, false
 	}
 	g := c.Call.StaticCallee()
-	if g == nil || !P.InModule(g) || len(g.Blocks) != 1 {
+	env := map[ssa.Value]ssa.Value{}
+	if mc, ok := c.Call.Value.(*ssa.MakeClosure); ok {
+		// a local closure called through its value: its free variables are bound to the captured cells
+		g, _ = mc.Fn.(*ssa.Function)
+		if g == nil {
+			return nil, nil, false
+		}
+		for i, fv := range g.FreeVars {
+			if i < len(mc.Bindings) {
+				env[fv] = mc.Bindings[i]
+			}
+		}
+	}
+	if g == nil {
+		return nil, nil, false
+	}
+	if !P.InModule(g) || len(g.Blocks) != 1 {
 		return nil, nil, false
 	}
 	ret, ok := g.Blocks[0].Instrs[len(g.Blocks[0].Instrs)-1].(*ssa.Return)
 	if !ok || len(ret.Results) != 1 {
 		return nil, nil, false
 	}
-	env := map[ssa.Value]ssa.Value{}
 	for i, p := range g.Params {
 		if i < len(c.Call.Args) {
 			env[p] = c.Call.Args[i]
 		}
 	}
 	return ret.Results[0], env, true
+}
+
+// envSub: the caller-side value a callee-side value stands for under env: parameters map to arguments; a load
+// through a captured variable maps to the single value stored in the captured cell
+func envSub(env map[ssa.Value]ssa.Value, x ssa.Value) (ssa.Value, bool) {
+	x = stripCopies(x)
+	if b, ok := env[x]; ok {
+		return b, true
+	}
+	if u, ok := x.(*ssa.UnOp); ok && u.Op == token.MUL {
+		if cell, ok := env[u.X]; ok {
+			if al, ok := cell.(*ssa.Alloc); ok {
+				var val ssa.Value
+				n := 0
+				for _, r := range *al.Referrers() {
+					if st, ok := r.(*ssa.Store); ok && st.Addr == ssa.Value(al) {
+						val = st.Val
+						n++
+					}
+				}
+				if n == 1 {
+					return val, true
+				}
+			}
+		}
+	}
+	return nil, false
 }
 
 func rulesC15(cx *Ctx) []Obligation {
@@ -606,7 +648,7 @@ func (c *c15) filtered(ef, cf, rp, mulE *ssa.Function, roles map[string]roleRef)
 				return false
 			}
 			lu, ok := ia.X.(*ssa.UnOp)
-			if !ok || !isRoleField(ef, lu, varsRef, "localConstants") {
+			if !ok || !isRoleField(ef, lu, varsRef, c15ConstField) {
 				return false
 			}
 			selLoad = lu
@@ -798,7 +840,7 @@ func (c *c15) product(cf, mulE, subE *ssa.Function, roles map[string]roleRef) {
 		if !ok {
 			if ret, env, ok := inlineSimple(P, v); ok && depth < 2 {
 				return factorSub(ret, isX, func(x ssa.Value) ssa.Value {
-					if b, ok := env[stripCopies(x)]; ok {
+					if b, ok := envSub(env, x); ok {
 						return sub(b)
 					}
 					return x
@@ -822,16 +864,28 @@ func (c *c15) product(cf, mulE, subE *ssa.Function, roles map[string]roleRef) {
 		}
 		return isX(stripCopies(sub(stripCopies(nv.Call.Args[0]))))
 	}
-	factor := func(v ssa.Value, isX func(ssa.Value) bool) bool {
-		return factorSub(v, isX, func(x ssa.Value) ssa.Value { return x }, 0)
-	}
 	times := func(v ssa.Value, acc ssa.Value, isX func(ssa.Value) bool) bool {
+		sub := func(x ssa.Value) ssa.Value { return x }
 		m, ok := callTo(v, mulE)
 		if !ok {
-			return false
+			// acc·(x − s) computed by a one-block helper or local closure
+			ret, env, okI := inlineSimple(P, v)
+			if !okI {
+				return false
+			}
+			m, ok = callTo(ret, mulE)
+			if !ok {
+				return false
+			}
+			sub = func(x ssa.Value) ssa.Value {
+				if b, ok := envSub(env, x); ok {
+					return b
+				}
+				return x
+			}
 		}
 		a1, a2 := m.Call.Args[1], m.Call.Args[2]
-		return (a1 == acc && factor(a2, isX)) || (a2 == acc && factor(a1, isX))
+		return (sub(a1) == acc && factorSub(a2, isX, sub, 0)) || (sub(a2) == acc && factorSub(a1, isX, sub, 0))
 	}
 	if len(fi.Loops) != 1 {
 		c.und(key, desc, fmt.Sprintf("computeFilter has %d loops (expected one)", len(fi.Loops)))
@@ -1025,8 +1079,10 @@ func findStripFn(P *Program) *ssa.Function {
 		}
 		for _, b := range fn.Blocks {
 			for _, ins := range b.Instrs {
-				if sl, ok := ins.(*ssa.Slice); ok && sl.Low != nil && stripCopies(sl.Low) == ssa.Value(fn.Params[1]) {
-					if isRoleField(fn, sl.X, roleRef{p: 0}, "localConstants") || recvFieldPath(sl.X, fn.Params[0], "localConstants") {
+				if sl, ok := ins.(*ssa.Slice); ok && sl.Low != nil && sl.High == nil && stripCopies(sl.Low) == ssa.Value(fn.Params[1]) {
+					// which field of the receiver is sliced? (its name is not assumed)
+					if name, ok := receiverFieldOf(fn, sl.X); ok {
+						c15ConstField = name
 						return fn
 					}
 				}
@@ -1034,6 +1090,29 @@ func findStripFn(P *Program) *ssa.Function {
 		}
 	}
 	return nil
+}
+
+// c15ConstField: the field of EvaluationVars holding the local constants (selector constants first); found by
+// findStripFn from what the stripping method slices
+var c15ConstField = "localConstants"
+
+// receiverFieldOf: v is a load of field F of fn's receiver (pointer or value receiver); returns F's name
+func receiverFieldOf(fn *ssa.Function, v ssa.Value) (string, bool) {
+	u, ok := v.(*ssa.UnOp)
+	if ok && u.Op == token.MUL {
+		if fa, ok := u.X.(*ssa.FieldAddr); ok {
+			if fa.X == ssa.Value(fn.Params[0]) {
+				return fieldName(fa.X.Type(), fa.Field), true
+			}
+			if al, ok := fa.X.(*ssa.Alloc); ok && localCopyOfPlus(al, fn.Params[0]) {
+				return fieldName(fa.X.Type(), fa.Field), true
+			}
+		}
+	}
+	if f, ok := v.(*ssa.Field); ok && f.X == ssa.Value(fn.Params[0]) {
+		return fieldName(types.NewPointer(f.X.Type()), f.Field), true
+	}
+	return "", false
 }
 
 func (c *c15) removePrefix(rp *ssa.Function) {
@@ -1046,7 +1125,7 @@ func (c *c15) removePrefix(rp *ssa.Function) {
 		if !ok || sl.High != nil || sl.Max != nil || sl.Low == nil || stripCopies(sl.Low) != ssa.Value(rp.Params[1]) {
 			return false
 		}
-		return recvFieldPath(sl.X, recv, "localConstants") || isRoleField(rp, sl.X, roleRef{p: 0}, "localConstants")
+		return recvFieldPath(sl.X, recv, c15ConstField) || isRoleField(rp, sl.X, roleRef{p: 0}, c15ConstField)
 	}
 	if len(rp.Blocks) != 1 {
 		c.bad(key, desc, "the method has branches", site)
@@ -1058,7 +1137,7 @@ func (c *c15) removePrefix(rp *ssa.Function) {
 		for _, ins := range rp.Blocks[0].Instrs {
 			if st, ok := ins.(*ssa.Store); ok {
 				n++
-				if recvFieldAddr(st.Addr, recv, "localConstants") && isStrip(st.Val) {
+				if recvFieldAddr(st.Addr, recv, c15ConstField) && isStrip(st.Val) {
 					okk = true
 				}
 			}
@@ -1099,7 +1178,7 @@ func (c *c15) removePrefix(rp *ssa.Function) {
 		v, has := fields[i]
 		name := st.Field(i).Name()
 		switch {
-		case name == "localConstants":
+		case name == c15ConstField:
 			if !has || v == nil || !isStrip(v) {
 				c.bad(key, desc, "the returned localConstants is not e.localConstants[numSelectors:]", site)
 				return
